@@ -278,10 +278,12 @@ func switchThreading(v *VM) *val.Val {
 			v.Push(vl)
 
 		case OP_OBJ_LOAD:
-			idx, w := v.readMediumInt(v.pc)
+			name, w := v.readConst(v.pc)
 			v.pc += w
 			o := v.Pop().Obj()
-			v.Push(o.V[idx])
+			vl, ok := o.Get(name.(string))
+			util.Assert(ok, "undefined field %s of %s", name, o)
+			v.Push(vl)
 
 		// -----------------------------------------------
 		case OP_LEN_STR:
